@@ -93,7 +93,8 @@ Do(a) ==
                          /\ UNCHANGED <<status, cclosed, shared, priv, mapped>>
     [] a.k = "gc"     -> /\ mapped' = [i \in Insts |-> mapped[i] /\ ~(status[i] = "closed" /\ i \notin Reachable)]
                          /\ Rec(a, "ok") /\ UNCHANGED <<status, href, cclosed, shared, priv>>
-    [] a.k = "call"   -> \* open instance a.i calls through its view of the shared table / its private table
+    [] a.k = "call"   -> \* open instance a.i calls through its view of the shared table / its private table; it also reads the
+                         \* memory it sees - A's memory, which B and C import: closing an importer releases nothing of A's
                          /\ status[a.i] = "open" /\ (a.t = "shared" => InvolvesT(a.i)) /\ (a.t = "priv" => a.i \in {"B", "D"})
                          /\ LET target == IF a.t = "shared" THEN shared[a.s] ELSE priv[a.i][a.s] IN
                             Rec(a, IF target = "-" THEN "trap" ELSE IF mapped[target] THEN target ELSE "UNSAFE")
